@@ -9,7 +9,8 @@ From Attrs Require Import Core.Attr Core.Init C06.Model C06.Proofs C06.TieBase G
 Open Scope string_scope.
 Open Scope list_scope.
 
-Definition cx_of (k : cls_spec) (von : bool) : ctx := {| cx_k := k; cx_von := von |}.
+Definition cx_of (k : cls_spec) (von : bool) (ct : bool) : ctx :=
+  {| cx_k := k; cx_von := von; cx_callable_truthy := ct |}.
 Definition self : tv := TV VSelf.
 
 Lemma tie_fully_translated : c06_fully_translated = true.
@@ -18,23 +19,23 @@ Proof. reflexivity. Qed.
 (** ** setters.py *)
 
 (** [setters.frozen] *)
-Lemma tie_frozen : forall k von a v K,
-  t_frozen (cx_of k von) self (TAttrib a) (TV v) K = run_hook k von a HFrozen v (fun w => K (TV w)).
+Lemma tie_frozen : forall k von ct a v K,
+  t_frozen (cx_of k von ct) self (TAttrib a) (TV v) K = run_hook k von a HFrozen v (fun w => K (TV w)).
 Proof. reflexivity. Qed.
 
 (** [setters.validate]: the global switch, "no validator", the call, the value returned. *)
-Lemma tie_validate : forall k von a v K,
-  t_validate (cx_of k von) self (TAttrib a) (TV v) K = run_hook k von a HValidate v (fun w => K (TV w)).
+Lemma tie_validate : forall k von ct a v K,
+  t_validate (cx_of k von ct) self (TAttrib a) (TV v) K = run_hook k von a HValidate v (fun w => K (TV w)).
 Proof.
-  intros k von a v K. unfold t_validate. cbn.
+  intros k von ct a v K. unfold t_validate. cbn.
   destruct von; cbn; try reflexivity; destruct (a_validator a); reflexivity.
 Qed.
 
 (** [setters.convert]: no converter / plain callable [c(v)] / Converter object [c(v, instance, attrib)]. *)
-Lemma tie_convert : forall k von a v K,
-  t_convert (cx_of k von) self (TAttrib a) (TV v) K = run_hook k von a HConvert v (fun w => K (TV w)).
+Lemma tie_convert : forall k von ct a v K,
+  t_convert (cx_of k von ct) self (TAttrib a) (TV v) K = run_hook k von a HConvert v (fun w => K (TV w)).
 Proof.
-  intros k von a v K. unfold t_convert. cbn.
+  intros k von ct a v K. unfold t_convert. cbn.
   destruct (a_converter a) as [|fn an|fn [] [] an]; reflexivity.
 Qed.
 
@@ -50,11 +51,11 @@ Proof.
 Qed.
 
 (** [setters.pipe]: the loop is the model's left-to-right chain, for chains of any length. *)
-Lemma tie_pipe : forall k von a hs v K,
-  t_pipe (cx_of k von) (map THook hs) self (TAttrib a) (TV v) K =
+Lemma tie_pipe : forall k von ct a hs v K,
+  t_pipe (cx_of k von ct) (map THook hs) self (TAttrib a) (TV v) K =
   run_chain k von a hs v (fun w => K (TV w)).
 Proof.
-  intros k von a hs. unfold t_pipe. induction hs as [|h r IH]; intros v K; cbn [map t_for run_chain].
+  intros k von ct a hs. unfold t_pipe. induction hs as [|h r IH]; intros v K; cbn [map t_for run_chain].
   - reflexivity.
   - cbn [t_call to_val cx_of cx_k cx_von]. apply run_hook_ext. intros w. apply IH.
 Qed.
@@ -63,10 +64,10 @@ Qed.
 
 (** The generated [__setattr__]: table lookup with KeyError fallback, the hook's RETURN value is
     what [_OBJ_SETATTR] stores, and the store is the last thing that happens. *)
-Lemma tie_setattr : forall k von tbl n v,
-  t_setattr (cx_of k von) tbl self (TStr n) (TV v) t_done = setattr_op k (SaHooked tbl) von n v.
+Lemma tie_setattr : forall k von ct tbl n v,
+  t_setattr (cx_of k von ct) tbl self (TStr n) (TV v) t_done = setattr_op k (SaHooked tbl) von n v.
 Proof.
-  intros k von tbl n v. unfold t_setattr. cbn [t_lookup setattr_op].
+  intros k von ct tbl n v. unfold t_setattr. cbn [t_lookup setattr_op].
   destruct (sa_find n tbl) as [[a hs]|]; reflexivity.
 Qed.
 
@@ -119,15 +120,15 @@ Qed.
 (** The loop body computes exactly [in_sa_attrs] / [effective_hooks]: field-level hook first
     ([a.on_setattr or self._on_setattr]), NO_OP truthy-but-excluded, the tuple stored under the
     field's name. *)
-Lemma tie_sa_step : forall o a d,
-  t_sa_step (TOn (osv_of_cls o)) (TAttrib a) d = table_step o (TAttrib a) d.
+Lemma tie_sa_step : forall cx o a d,
+  t_sa_step cx (TOn (osv_of_cls o)) (TAttrib a) d = table_step o (TAttrib a) d.
 Proof.
-  intros o a d. unfold t_sa_step, table_step, in_sa_attrs, effective_hooks. cbn.
+  intros cx o a d. unfold t_sa_step, table_step, in_sa_attrs, effective_hooks. cbn.
   destruct (a_on_setattr a) as [| |hs]; destruct o as [| | |h|hs']; reflexivity.
 Qed.
 
-Lemma t_sa_attrs_fold o : forall (l : list attribute) d,
-  fold_left (fun st x => t_sa_step (TOn (osv_of_cls o)) x st) (map TAttrib l) d =
+Lemma t_sa_attrs_fold cx o : forall (l : list attribute) d,
+  fold_left (fun st x => t_sa_step cx (TOn (osv_of_cls o)) x st) (map TAttrib l) d =
   fold_left (fun st x => table_step o x st) (map TAttrib l) d.
 Proof.
   induction l as [|a r IH]; intros d; cbn [map fold_left]; [reflexivity|].
@@ -136,12 +137,12 @@ Qed.
 
 (** The whole table: what the regenerated loop leaves in the dict is the model's [sa_table],
     key by key, for any number of fields. *)
-Lemma tie_sa_attrs : forall k n,
+Lemma tie_sa_attrs : forall cx k n,
   NoDup (map a_name (k_attrs k)) ->
-  dict_get (t_sa_attrs (map TAttrib (k_attrs k)) (TOn (osv_of_cls (effective_cls_on_setattr k)))) n =
+  dict_get (t_sa_attrs cx (map TAttrib (k_attrs k)) (TOn (osv_of_cls (effective_cls_on_setattr k)))) n =
   entry_tv (sa_find n (sa_table k)).
 Proof.
-  intros k n ND. unfold t_sa_attrs, t_fold.
+  intros cx k n ND. unfold t_sa_attrs, t_fold.
   etransitivity; [|exact (table_fold (effective_cls_on_setattr k) (k_attrs k) [] n ND)].
   f_equal. apply t_sa_attrs_fold.
 Qed.
@@ -150,10 +151,10 @@ Qed.
 
 (** Which on_setattr the class builder is handed: the default pipe for a mutable class without
     an explicit setting, NO_OP below a frozen base, ValueError ([None]) for explicit hooks there. *)
-Lemma tie_define_wrap : forall arg fz bases,
-  t_define_wrap (tv_of_cls arg) (TBool fz) bases =
+Lemma tie_define_wrap : forall cx arg fz bases,
+  t_define_wrap cx (tv_of_cls arg) (TBool fz) bases =
   option_map tv_of_cls (define_wrap arg fz (existsb (fun b => b) bases)).
 Proof.
-  intros arg fz bases. unfold t_define_wrap, define_wrap.
+  intros cx arg fz bases. unfold t_define_wrap, define_wrap.
   destruct (existsb (fun b => b) bases); destruct arg as [| | |h|hs], fz; reflexivity.
 Qed.
